@@ -85,31 +85,35 @@ def encode (e : Enc) (aus : List Bytes) : Enc × Option (List Pkt) :=
 
 /-! ### mediacommon `mpeg4audio.ADTSPackets.Unmarshal` (only the AUs matter to the decoder) -/
 
+/-- the body of the `for` loop of `Unmarshal`: one ADTS packet at the head of `r`; result: its AU
+and the bytes after it (`pos += 7 + frameLen`) -/
+def adtsHead (r : Bytes) : Option (Bytes × Bytes) :=
+  if r.length < 8 then none
+  else
+    let b1 := r.getD 1 0; let b2 := r.getD 2 0; let b3 := r.getD 3 0
+    if ¬ (r.getD 0 0 = 0xFF ∧ b1 >>> 4 = 0xF) then none            -- syncword
+    else if b1 &&& 0x01 ≠ 1 then none                                -- CRC is not supported
+    else if (b2 >>> 2) &&& 0x0F > 12 then none                       -- sample rate index
+    else if ((b2 &&& 0x01) <<< 2) ||| ((b3 >>> 6) &&& 0x03) > 7 then none   -- channel configuration
+    else
+      let raw := (b3 &&& 0x03).toNat * 2048 + (r.getD 4 0).toNat * 8 + ((r.getD 5 0 >>> 5) &&& 0x07).toNat
+      if raw ≤ 7 then none                                            -- frameLen <= 0
+      else
+        let frameLen := raw - 7
+        if frameLen > maxAU then none
+        else if r.getD 6 0 &&& 0x03 ≠ 0 then none                    -- frame count
+        else if r.length - 7 < frameLen then none
+        else some ((r.drop 7).take frameLen, r.drop (7 + frameLen))
+
 /-- one iteration per ADTS packet; `fuel` bounds the number of packets (each takes ≥ 8 bytes) -/
 def adtsLoop : Nat → Bytes → Option (List Bytes)
   | 0, _ => none
   | f + 1, r =>
-    if r.length < 8 then none
-    else
-      let b0 := r.getD 0 0; let b1 := r.getD 1 0; let b2 := r.getD 2 0; let b3 := r.getD 3 0
-      let b4 := r.getD 4 0; let b5 := r.getD 5 0; let b6 := r.getD 6 0
-      if ¬ (b0 = 0xFF ∧ b1 >>> 4 = 0xF) then none            -- syncword
-      else if b1 &&& 0x01 ≠ 1 then none                        -- CRC is not supported
-      else if (b2 >>> 2) &&& 0x0F > 12 then none               -- sample rate index
-      else if ((b2 &&& 0x01) <<< 2) ||| ((b3 >>> 6) &&& 0x03) > 7 then none   -- channel configuration
-      else
-        let raw := (b3 &&& 0x03).toNat * 2048 + b4.toNat * 8 + ((b5 >>> 5) &&& 0x07).toNat
-        if raw ≤ 7 then none                                    -- frameLen <= 0
-        else
-          let frameLen := raw - 7
-          if frameLen > maxAU then none
-          else if b6 &&& 0x03 ≠ 0 then none                     -- frame count
-          else if r.length - 7 < frameLen then none
-          else
-            let au := (r.drop 7).take frameLen
-            let rest := r.drop (7 + frameLen)
-            if rest.length = 0 then some [au]
-            else (adtsLoop f rest).map (au :: ·)
+    match adtsHead r with
+    | none => none
+    | some (au, rest) =>
+      if rest.length = 0 then some [au]
+      else (adtsLoop f rest).map (au :: ·)
 
 def adtsUnmarshal (buf : Bytes) : Option (List Bytes) := adtsLoop (buf.length + 1) buf
 
